@@ -352,7 +352,7 @@ def c02(tier):
                 'the aircraft, with and without -U, with the public get_message/get_icao called on the same line. Every event is '
                 'judged (accept <=> oracle, reject => table untouched); distinct = distinct (line, context)'
                 % ('0..64' if tier == 'thorough' else 'around 0/14/26/28/40/64', nd))
-    vlib.nt_floor(rep, 500)
+    vlib.nt_floor(rep, 300)
     return rep
 
 
@@ -1691,7 +1691,7 @@ def c18(tier):
     rep.extra['fault_sequences'] = len(seqs)
     rep.rule = ('%s, each followed by a healthy connection, played by a loopback peer against the real release binary (-t 127.0.0.1:port '
                 '--update=-1); recorded: accept times, bytes sent, close/reset, last refresh, process liveness. TLC checks: one accept per non-refused '
-                'script element and the healthy one, gap after n refusals within [5n-0.5, 5n+2] s, prompt reconnect (< 2.5 s) after close/reset, '
+                'script element and the healthy one, gap after n refusals within [5n-0.5, 5n+4] s, prompt reconnect (< 4.5 s) after close/reset, '
                 'process alive, last refresh lists exactly the aircraft whose complete frames were delivered on any connection (partial lines and junk '
                 'contribute nothing and break nothing). Non-trivial = sequence with at least one fault; distinct by fault sequence' %
                 ('6 fault sequences of length 1..3' if tier == 'quick' else 'all 155 fault sequences of length <= 3 over 5 fault kinds'))
